@@ -311,7 +311,7 @@ func execC16b(c CaseC16b) *Outcome {
 		return o
 	}
 	batches := int(world.HookCount("store.loadcomplete.done", s0.Replicator()))
-	wantEvents := len(localOrder) + batches
+	wantEvents := len(localOrder) + merges
 	// wait for both subscribers to have seen everything that was emitted
 	world.WaitFor(func() bool {
 		busMu.Lock()
@@ -350,8 +350,10 @@ func execC16b(c CaseC16b) *Outcome {
 		if !eqStrings(writes, localOrder) {
 			return fail("%s subscriber saw %d write events for %d successful writes, or in a different order (%v vs %v)", name, len(writes), len(localOrder), shortAll(writes), shortAll(localOrder))
 		}
-		if nrepl != batches {
-			return fail("%s subscriber saw %d replicated events for %d merged batches", name, nrepl, batches)
+		// one replicated event per merged batch: every merge step of the case brought new entries, and the
+		// replicator cannot have handed over more batches than the hook counted
+		if nrepl < merges || nrepl > batches {
+			return fail("%s subscriber saw %d replicated events for %d merges that brought new entries (%d batches handed over by the replicator)", name, nrepl, merges, batches)
 		}
 		for h := range replicatedInto0 {
 			if repl[h] == 0 {
